@@ -11,10 +11,10 @@ from .verify import Executor, FunctionReport
 
 
 class Lemma:
-    def __init__(self, name, vars, goal, requires=(), ih=(), hints=(), fuel=1, props=(), note="", needs=(), asserts=()):
+    def __init__(self, name, vars, goal, requires=(), ih=(), hints=(), fuel=1, props=(), note="", needs=(), asserts=(), executor=None):
         self.name, self.vars, self.goal = name, vars, goal
         self.requires, self.ih, self.hints, self.fuel = list(requires), list(ih), list(hints), fuel
-        self.props, self.note, self.needs, self.asserts = list(props), note, list(needs), list(asserts)
+        self.props, self.note, self.needs, self.asserts, self.executor = list(props), note, list(needs), list(asserts), executor
 
 
 class LemmaFn:
@@ -43,7 +43,10 @@ class LemmaFn:
 def verify_lemma(world, lm):
     rep = FunctionReport("lemma::" + lm.name)
     path = Path([], [])
-    ex = Executor(path, world)
+    cls = Executor
+    if lm.executor == "template":
+        from .templates import TemplateExecutor as cls
+    ex = cls(path, world)
     ex.fuel = lm.fuel
     ex.prefix = "lemma:" + lm.name
     env = {v: ex.make_param(v, ty) for v, ty in lm.vars.items()}
